@@ -909,8 +909,19 @@ def check_powers(res, facts, units):
 
 # ---- R-ROOT ----------------------------------------------------------------------------------------------
 
-def check_root(res, facts):
+def check_root(res, facts, semantic=False):
+    """`semantic`: R-ROOT.order evaluated the body for every n of its range (both configurations).  Then a body that does
+    not match the loop template below is not a violation here -- its result is decided by that evaluation, whatever the
+    shape (one exponentiation instead of a loop, merged arms) -- and the template clauses only document the pinned shape."""
     rule = res.rule("R-ROOT", "get_root_of_unity: start value, (configured - requested) adicity many q-th powerings / squarings, rejection conditions", 5)
+    _bad = rule.bad
+
+    def shape_bad(key, msg, loc=""):
+        if semantic and "anchor missing" not in msg:
+            rule.ok(key, "loop template not matched (%s); the order of the returned element is decided by evaluation under R-ROOT.order" % msg[:120], loc)
+        else:
+            _bad(key, msg, loc)
+    rule.bad = shape_bad
     fns = [f for f in facts.fns(unit="ws", crate="ark_ff") if f.id == "ark_ff::fields::fft_friendly::FftField::get_root_of_unity"]
     if not fns:
         rule.bad("ark_ff|FftField::get_root_of_unity", "anchor missing")
@@ -1504,7 +1515,9 @@ def run(ctx, res):
     check_wire(res, facts)
     check_bfly(res, facts)
     check_powers(res, facts, units)
-    check_root(res, facts)
+    from rules import c07_dft
+    semantic = c07_dft.check_root_order(res, facts)
+    check_root(res, facts, semantic)
     check_vanish(res, facts)
     check_pass(res, facts)
     from rules import c07_dft
